@@ -35,6 +35,14 @@ var TinyRegexGrammar = RegexGrammar{
 	Binary: []string{"%s%s", "%s|%s"},
 }
 
+// HighByteRegexGrammar: literals above 0x7f stand for single bytes in binaryregexp, not for the UTF-8
+// encoding of the rune with that number.
+var HighByteRegexGrammar = RegexGrammar{
+	Atoms:  []string{"a", `\xe9`, "[ab]"},
+	Unary:  []string{"%s*", "%s+", "%s?", "%s{2}"},
+	Binary: []string{"%s%s", "%s|%s"},
+}
+
 func subst(pat string, args ...string) string {
 	out := make([]byte, 0, len(pat)+16)
 	ai := 0
